@@ -210,7 +210,8 @@ def case_cell(ctx, p):
             mon.close("workload:%s.sintl-array-args" % m, s2, s, rtol=1e-12, atol=1e-15)
         # a refinement loop: the caller's own list / array is updated in place and handed in again (the contracts judge every
         # call against the values the object holds at that moment)
-        for held in (list(c), np.array(c, float)):
+        fresh = [c[0] * 1.0625, c[1] * 0.9375, c[2]] + list(c[3:])     # numbers the module has not seen: its first sight of them is the held object
+        for held in (list(fresh), np.array(fresh, float)):
             h0 = p["hkls"][0]
             mod.sintl(held, h0)
             mod.form_b_mat(held)
